@@ -53,9 +53,9 @@ theorem run_start_ns {b : Builder} {frames : List (List (Str × Str))} (pfx loc 
           namespaces := (declIds b.env (declsOf attrs)).2,
           attributes := (ordinary attrs).map NSAttr.builder } } tail lexErr := by
   simp only [Builder.run, Builder.step]
-  rw [run_attrs_ns tail lexErr attrs (b.element pfx loc) (ElementBuilder.new pfx loc) rfl hw.1
-    (by intro d hd; simp [ElementBuilder.new] at hd) hw.2.1
-    (by simpa [ElementBuilder.new] using written_nodup hw.2.2.1)]
+  rw [run_attrs_ns tail lexErr attrs (b.element pfx loc) (ElementBuilder.new pfx loc) rfl hw.1 hw.2.1
+    (by intro d hd; simp [ElementBuilder.new] at hd) hw.2.2.1
+    (by simpa [ElementBuilder.new] using written_nodup hw.2.2.2.1)]
   simp [Builder.element, ElementBuilder.new]
 
 mutual
@@ -121,11 +121,11 @@ theorem sim_node_ns : ∀ (sn : NSNode) (frames : List (List (Str × Str))), sn.
     intro rest lexErr
     obtain ⟨sp, h⟩ := run_comment b text junk rest lexErr
     exact ⟨b.idNodes, sp, by simpa [NSNode.tokens, emit_eq_emitNs, NPNode.ids.idsList, NPNode.ids] using h⟩
-  | .pi target content junk, frames, _, b, _, _, _ => by
+  | .pi target content junk, frames, hw, b, _, _, _ => by
     simp only [NSNode.denote, encodeNsList_single, NPNode.encode]
     refine ⟨?_, fun _ _ _ _ => headOk_emitNs_single rfl⟩
     intro rest lexErr
-    obtain ⟨sp, h⟩ := run_pi b target content junk rest lexErr
+    obtain ⟨sp, h⟩ := run_pi b target content junk rest lexErr hw
     exact ⟨b.idNodes, sp, by simpa [NSNode.tokens, emit_eq_emitNs, NPNode.ids.idsList, NPNode.ids] using h⟩
 theorem sim_list_ns : ∀ (sns : List NSNode) (frames : List (List (Str × Str))),
     NSNode.Well.wellList (flatScope frames) sns → noAdjCharsNs sns = true →
